@@ -129,6 +129,13 @@ def r4_strip_tracing(body, log):
             out.append(body[i:])
             break
         pre = mb[:m.start()].rstrip()
+        if pre.endswith('=>'):
+            # match-arm position (`Err(e) => tracing::warn!(..),`): the arm's value is (), keep an empty block
+            close = match_close(mb, m.end() - 1)
+            out.append(body[i:m.start()] + '{}')
+            i = close + 1
+            n += 1
+            continue
         if pre and pre[-1] not in '{};':
             out.append(body[i:m.end()])
             i = m.end()
@@ -151,7 +158,7 @@ def r4_strip_tracing(body, log):
         i = j
         n += 1
     if n:
-        log.append(f"R4 removed {n} statement-position tracing macro call(s)")
+        log.append(f"R4 removed {n} statement- / match-arm-position tracing macro call(s)")
     return ''.join(out)
 
 
